@@ -212,6 +212,24 @@ def point_table(run, h=None):
     return tab
 
 
+def d22_key(run, cfg, anyfinite):
+    """Finding D22, by mechanism. A success flag with a non-finite objective is the known finding only when no point with a finite
+    objective exists anywhere in the history AND the route is one of the two that were characterised: (1) 'Objective is sufficiently
+    small' with a non-finite f(x0) (the threshold rel_tol*f(x0) is then infinite / NaN-poisoned); (2) 'Reached maximum number of
+    unsuccessful restarts' under SOFT restarts (every run is 'unsuccessful' because NaN never compares smaller)."""
+    if anyfinite or run.soln is None:
+        return None
+    msg = run.soln.msg
+    up = cfg.get("user_params") or {}
+    restarts = up.get("restarts.use_restarts", bool(cfg.get("args", {}).get("objfun_has_noise")))
+    soft = restarts and up.get("restarts.use_soft_restarts", True)
+    if "sufficiently small" in msg:
+        return "success-flag-with-no-finite-point-in-history"
+    if "unsuccessful restarts" in msg and soft:
+        return "success-flag-with-no-finite-point-in-history"
+    return None
+
+
 def sumsq(r):
     with np.errstate(all="ignore"):
         return float(np.dot(r, r))
